@@ -1,6 +1,9 @@
 package main
 
 import (
+	"strconv"
+	"io"
+	"bytes"
 	"crypto/ed25519"
 	"crypto/sha512"
 	"errors"
@@ -89,6 +92,20 @@ func init() {
 	register("sha512", func(args []string) string {
 		s := sha512.Sum512(ofHex(args[0]))
 		return "ok " + toHex(s[:])
+	})
+	// ComputeWebBundleSha512(handle, 0) on a handle something has already read from (as sign-bundle does after ObtainIntegrityBlock)
+	register("ib.sha512.handle", func(args []string) string {
+		r := bytes.NewReader(ofHex(args[0]))
+		n, err := strconv.Atoi(args[1])
+		if err != nil {
+			panic("bad-op")
+		}
+		io.CopyN(io.Discard, r, int64(n))
+		h, err := integrityblock.ComputeWebBundleSha512(r, 0)
+		if err != nil {
+			return "err"
+		}
+		return "ok " + toHex(h)
 	})
 	register("oracle.edkey", func(args []string) string {
 		k := ed25519.NewKeyFromSeed(ofHex(args[0]))
